@@ -263,7 +263,7 @@ def plan(prop, tier):
         # every message-sending site of every operator: all sequential families (small ones in the quick
         # tier), sources, interval, pipelines
         skipq = ("merge3", "combine3", "concat3", "share2", "merge2_late")
-        fams = [(n, c, r) for n, (c, r) in F.items() if not (q and n in skipq)]
+        fams = group_small([(n, c, r) for n, (c, r) in F.items() if not (q and n in skipq)])
         fams += plan("C15", tier)[:2] + plan("C16", tier)[:2] + plan("C14", tier)[:3]
         fams += pipeline_plan(tier)[:2 if q else 8]
         return fams
